@@ -324,6 +324,13 @@ impl KeyKeeperSharedState {
         self.set_key(None).await
     }
 
+    /// Get the current key (guid and value) from one snapshot of the key state.
+    /// Signing code must use this instead of two separate guid/value reads, otherwise a key
+    /// rotation between the two reads pairs the id of one key with the secret of another.
+    pub async fn get_current_key(&self) -> Result<Option<Key>> {
+        self.get_key().await
+    }
+
     pub async fn get_current_key_value(&self) -> Result<Option<String>> {
         match self.get_key().await {
             Ok(Some(k)) => Ok(Some(k.key)),
